@@ -201,6 +201,19 @@ def run_case(case):
         conn = _Conn()
         h = O.DBusObjectHandler(conn)
         h.exportObject(obj)
+        # a sibling: another instance of the same class with values of its own, exported next to the first; whatever is
+        # done to the first object must leave it alone (property state belongs to the instance)
+        twin = type(obj)('/twin')
+        twin_vals = {}
+        for a in attrs:
+            spec = _pspec(case, a['iface'], a['pname'])
+            if spec['sig'] in ('s', 'i', 'u', 'y', 'b'):
+                tv = {'s': 'twin', 'i': -7, 'u': 7, 'y': 7, 'b': True}[spec['sig']]
+                setattr(twin, a['attr'], tv)
+                twin_vals[a['attr']] = tv
+            else:
+                setattr(twin, a['attr'], _natural(spec['sig'], a['init']))
+        h.exportObject(twin)
         del conn.sent[:]
         serial = 50
         names_count = {}
@@ -331,6 +344,12 @@ def run_case(case):
                             out.append(Disc('getall.variant-type', '%s: %s declared %r got %r' % (where, k, want[k][0][1], gsig[k])))
             if out:
                 break
+        if not out:
+            for attr, tv in twin_vals.items():
+                if getattr(twin, attr) != tv:
+                    out.append(Disc('twin.value-changed', 'another instance of the class had %s = %r, now %r' % (
+                        attr, tv, getattr(twin, attr))))
+                    break
     except Exception as e:
         out.append(Disc(exc_key(e, 'c17.exception'), exc_detail(e)))
     return out
